@@ -12,6 +12,7 @@ import (
 	"net/http/httptest"
 	"runtime/debug"
 	"sort"
+	"strconv"
 	"strings"
 	"sync"
 	"time"
@@ -174,9 +175,18 @@ func nameOf(l labels.Labels) string { return l.Get(labels.MetricName) }
 func canonLabels(l labels.Labels) string {
 	var sb strings.Builder
 	l.Range(func(lb labels.Label) {
-		fmt.Fprintf(&sb, "%q=%q,", lb.Name, lb.Value)
+		fmt.Fprintf(&sb, "%s=%s,", canonString(lb.Name), canonString(lb.Value))
 	})
 	return sb.String()
+}
+
+// canonString quotes a label name or value; absurdly long ones (a corrupted symbol table can produce
+// megabytes) are represented by length, hash and head so that recording stays cheap.
+func canonString(s string) string {
+	if len(s) <= 512 {
+		return strconv.Quote(s)
+	}
+	return fmt.Sprintf("<%d bytes, hash %016x, starts %q>", len(s), simkit.Hash64(s), s[:32])
 }
 
 func (a *recAppender) outcomeFor(name string) outcome {
@@ -385,14 +395,14 @@ type node struct {
 }
 
 type clusterCfg struct {
-	nodes     int
-	rf        int
-	algo      receive.HashringAlgorithm
-	limits    string // limits YAML for every node ("" = none)
-	noPeers   bool   // do not install simulated peers (single-node worlds)
-	workers   uint
-	splitLbl  string
-	otlp      bool
+	nodes    int
+	rf       int
+	algo     receive.HashringAlgorithm
+	limits   string // limits YAML for every node ("" = none)
+	noPeers  bool   // do not install simulated peers (single-node worlds)
+	workers  uint
+	splitLbl string
+	otlp     bool
 }
 
 type cluster struct {
